@@ -686,6 +686,12 @@ def do_par(w: World, op: dict):
                     same = any(w.content_of.get((l2, v2), (None, None))[1] == mt_served and l2 == loc
                                for (v2, l2) in live_set)
                     if not same:
+                        if (all(l2 != loc for (_, l2) in live_set) and live_set
+                                and w.store.mtime(loc) == mt_served):
+                            # the entry's own file is unchanged but the name now resolves to an
+                            # earlier search path / loader: the recorded known finding
+                            raise Violation("stale_served", sub="shadowed", lookup=lk.brief(),
+                                            live=sorted(live_set), concurrent=True)
                         raise Violation("conc_stale_served", lookup=lk.brief(),
                                         live=sorted(live_set))
                 w.count("conc_stale_permitted")
